@@ -762,6 +762,34 @@ pub fn run(r: &mut Runner) {
                 }
             }
         }
+        // the same name once as the macro and once as an ordinary call, in one expression, in both orders
+        let plain: Vec<E> = cases.iter().filter(|c| c.mode == 0).map(|c| c.tree.clone()).collect();
+        for name in ["all", "exists", "exists_one", "existsOne", "map", "filter"] {
+            let mac = match name {
+                "all" => Mac::All,
+                "exists" => Mac::Exists,
+                "exists_one" => Mac::ExistsOne,
+                "existsOne" => Mac::ExistsOneCamel,
+                "map" => Mac::Map,
+                _ => Mac::Filter,
+            };
+            let m = E::Macro(mac, b(E::var("xs")), "v".into(), vec![E::bin(Op::Gt, E::var("v"), E::Lit(V::Int(1)))]);
+            for p in plain.iter().filter(|p| matches!(p, E::Call(n, ..) if n == name)) {
+                for t in [E::bin(Op::Or, p.clone(), m.clone()), E::bin(Op::Or, m.clone(), p.clone()), E::List(vec![m.clone(), p.clone(), m.clone()])] {
+                    for mode in 0..2u8 {
+                        cases.push(Case { tree: t.clone(), mode, seps: vec![] });
+                    }
+                }
+            }
+        }
+        let hm = E::Has(b(E::var("m")), "f".into());
+        for p in plain.iter().filter(|p| matches!(p, E::Call(n, ..) if n == "has")) {
+            for t in [E::bin(Op::And, hm.clone(), p.clone()), E::bin(Op::And, p.clone(), hm.clone())] {
+                for mode in 0..2u8 {
+                    cases.push(Case { tree: t.clone(), mode, seps: vec![] });
+                }
+            }
+        }
         r.sweep("macro-names-in-other-call-shapes", cases, check);
     }
     let mut pool = Pool::c02();
